@@ -179,44 +179,58 @@ def check(repo, rep):
                    'get_audio_source[file]:args', 'call is %s' % show(v)[:100])
     for k in want:
         rep.ob('get_audio_source handles %s inputs' % k, k in seen, cx.where('io', cx.fn('io', 'get_audio_source')), 'get_audio_source:missing-%s' % k)
-    # from_file: raw / wav x large_file
+    # from_file: raw / wav x large_file -- decided by taking each (format, large_file) through the path conditions of from_file (the
+    # guessed format is whatever _guess_audio_format returns: its call term is given the value)
+    from ..semantic import evaluator, Undecided
+    from ..termeval import NotEvaluable
     fl = cx.leaves('io', 'from_file')
+    GUESS = [e[1] for l in fl for e in l.effects if e[0] == 'call' and e[1][0] == 'call' and e[1][1] == ('g', 'io', '_guess_audio_format')]
     nff = 0
-    for l in fl:
-        if l.outcome != 'return':
-            continue
-        v = l.value
-        name = term_name(v[1]).split('.')[-1] if v[0] == 'call' else '?'
-        fmts = [c for c in l.conds if any(x == ('c', 'raw') or x == ('c', 'wav') for x in walk(c[0]))]
-        def fmt_is(name):
-            for c in l.conds:
-                g = norm_cmp(c[0], c[1])
-                if g and ((g[0] == 'in' and any(x == ('c', name) for x in walk(g[2]))) or (g[0] == '==' and g[2] == ('c', name))):
-                    return True
-            return False
-        israw = fmt_is('raw')
-        iswav = fmt_is('wav')
-        if israw:
-            nff += 1
-            fn = cx.fn('io', name, required=False)
-            ok = name == '_load_raw'
-            rep.ob('from_file: raw format -> raw loader', ok, cx.where('io', l.node), 'from_file[raw]', 'raw builds %s' % name)
-            if ok and fn is not None:
-                b = bind_call(v, fn)
-                rep.ob('from_file passes filename and large_file in role to the raw loader', b.get('filename') == ('p', 'filename') and b.get('large_file') == ('p', 'large_file'), cx.where('io', l.node), 'from_file[raw]:args',
-                       'filename=%s large_file=%s' % (show(b.get('filename')) if b.get('filename') else None, show(b.get('large_file')) if b.get('large_file') else None))
-        elif iswav:
-            nff += 1
-            fn = cx.fn('io', name, required=False)
-            ok = name == '_load_wave'
-            rep.ob('from_file: wav format -> wave loader', ok, cx.where('io', l.node), 'from_file[wav]', 'wav builds %s' % name)
-            if ok and fn is not None:
-                b = bind_call(v, fn)
-                rep.ob('from_file passes filename and large_file in role to the wave loader', b.get('filename') == ('p', 'filename') and b.get('large_file') == ('p', 'large_file'), cx.where('io', l.node), 'from_file[wav]:args',
-                       'filename=%s large_file=%s' % (show(b.get('filename')) if b.get('filename') else None, show(b.get('large_file')) if b.get('large_file') else None))
-    rep.floor('from_file raw/wav dispatch paths', nff, 2)
+    if not GUESS:
+        rep.unknown('from_file: the call that guesses the format was not found')
+    else:
+        gterm = GUESS[0]
+        try:
+            for fmt_, lf_, want in (('raw', False, '_load_raw'), ('raw', True, '_load_raw'), ('wav', False, '_load_wave'), ('wav', True, '_load_wave'), 
+                                    ('ogg', True, 'error'), (None, True, 'error'), ('mp3', True, 'error')):
+                a_ = {gterm: fmt_, ('p', 'large_file'): lf_, ('p', 'audio_format'): fmt_}
+                hit = []
+                for l in fl:
+                    ok_ = True
+                    for ct, tr, _ in l.conds:
+                        if not any(x == gterm or x == ('p', 'large_file') or x == ('p', 'audio_format') for x in walk(ct)):
+                            continue
+                        ev_ = evaluator(a_)
+                        got = ev_.ev(ct)
+                        if ev_.leaves:
+                            raise Undecided('condition %s' % show(ct)[:60])
+                        if bool(got) != tr:
+                            ok_ = False
+                            break
+                    if ok_:
+                        hit.append(l)
+                if not hit:
+                    raise Undecided('no path applies to format %r, large_file=%s' % (fmt_, lf_))
+                for l in hit:
+                    nff += 1
+                    v = l.value
+                    name = term_name(v[1]).split('.')[-1] if l.outcome == 'return' and v is not None and v[0] == 'call' else ('error' if l.outcome == 'raise' else '?')
+                    tag_ = 'from_file[%s,%s]' % (fmt_, 'lazy' if lf_ else 'eager')
+                    if want == 'error':
+                        rep.ob('from_file: large_file with a format that is neither raw nor wav raises an I/O error', l.outcome == 'raise' and exc_name(l) in ('AudioIOError', 'IOError', 'OSError'), cx.where('io', l.node), tag_,
+                               'format %r, large_file=True: %s %s' % (fmt_, l.outcome, exc_name(l) if l.outcome == 'raise' else show(v)[:50]))
+                        continue
+                    rep.ob('from_file: %s format -> %s loader' % (fmt_, 'raw' if want == '_load_raw' else 'wave'), name == want, cx.where('io', l.node), tag_, 'format %r builds %s' % (fmt_, name), sample=dict(format=fmt_, large_file=lf_, loader=name))
+                    fn = cx.fn('io', name, required=False)
+                    if name == want and fn is not None:
+                        b = bind_call(v, fn)
+                        rep.ob('from_file passes filename and large_file in role to the %s loader' % ('raw' if want == '_load_raw' else 'wave'), b.get('filename') == ('p', 'filename') and b.get('large_file') == ('p', 'large_file'), cx.where('io', l.node),
+                               tag_ + ':args', 'filename=%s large_file=%s' % (show(b.get('filename')) if b.get('filename') else None, show(b.get('large_file')) if b.get('large_file') else None))
+        except (Undecided, NotEvaluable) as exc:
+            rep.unknown('from_file: dispatch on the format could not be evaluated (%s)' % exc)
+    rep.floor('from_file dispatch cases evaluated', nff, 6)
     # the format is guessed from (filename, audio_format)
-    guess = [e[1] for l in fl for e in l.effects if e[0] == 'call' and e[1][0] == 'call' and e[1][1] == ('g', 'io', '_guess_audio_format')]
+    guess = GUESS
     rep.ob('from_file guesses the format from (filename, audio_format)', bool(guess) and all(g[2] == (('p', 'filename'), ('p', 'audio_format')) for g in guess), cx.where('io', cx.fn('io', 'from_file')), 'from_file:guess-args',
            'calls: %s' % [show(g)[:80] for g in guess[:2]])
     # loaders: lazy vs eager construct the right class from the same file
@@ -272,5 +286,5 @@ def check(repo, rep):
                        '(long name wins); _get_audio_parameters (loop unrolled) yields FirstOf(dict; long, short) in the order rate, width, channels; (b) split() hands max_read / audio_format down '
                        'normalised and resolves eth / uc / val the same way; (c) source factory: "-" -> stdin source, bytes -> buffer source (same bytes), path -> from_file(filename, **kwargs), '
                        'raw/wav x large_file -> the lazy class or an eager BufferAudioSource of the whole file, AudioReader converts non-sources through the factory; (d) the limiter rules of C10; '
-                       'audio-parameter roles at every hand-over on these paths. NOT decided: equality of the region lists across containers (a runtime value); it rests on C11\'s sibling agreement.')
+                       'audio-parameter roles at every hand-over on these paths. Helpers of the form h(d, long, short) are counted as the same alias idiom; no container loader dereferences a read() result that is None for empty audio (nullness engine over io.py). NOT decided: equality of the region lists across containers (a runtime value); it rests on C11\'s sibling agreement.')
     rep.assumptions = ['C11 (all source kinds deliver the same chunks for the same audio)', 'C10 (framing/limiter)']
